@@ -36,7 +36,7 @@ func Specs() map[string]*PropSpec {
 	strFiles := []string{"memdb/string.go", "memdb/keys.go", "memdb/db.go", "memdb/concurrentmap.go", "memdb/command.go", "server/db_manager.go"}
 	add(&PropSpec{ID: "C01", Files: strFiles,
 		Explanation: "Structural necessary conditions of the string/key command semantics, decided for every path of the executors in the anchor files: key and value bytes reach the keyspace unchanged (R9); every path returns a reply (R7); arity/option parsing cannot index outside the argument vector (R1); integer updates are overflow-guarded (R19); an error reply implies nothing was changed (R27); two argument keys that may be the same key are handled safely (R25); read-modify-write stays inside one lock hold (R15r); the named commands are registered (R0). Reply values against the Redis reference are not decided. A stored string is never written through (R9s) and asynchronous expiry re-validates the deadline under the key's stripe before it deletes (R17, timer goroutines included). Option values an executor parses into a local record are read afterwards (R29). Every value stored in the keyspace has one of the dynamic types the readers test for (R30); lock pairing and ordering of the string executors (R14p, R14o).",
-		Rules:       []RuleRef{registeredRule("set", "get", "mset", "mget", "setnx", "setex", "append", "strlen", "getrange", "setrange", "incr", "decr", "incrby", "decrby", "incrbyfloat", "del", "exists", "type", "rename", "keys", "ping"), rR9, rR7, rR1, rR19, rR25, rR27, rR15r, rR17, rR9s, rR29, rR30, rR14pair, rR14order, rR22w, rR31, rR20m, rR9m, rR32, rR30g, rR22m}})
+		Rules:       []RuleRef{registeredRule("set", "get", "mset", "mget", "setnx", "setex", "append", "strlen", "getrange", "setrange", "incr", "decr", "incrby", "decrby", "incrbyfloat", "del", "exists", "type", "rename", "keys", "ping"), rR9, rR7, rR1, rR19, rR25, rR27, rR15r, rR17, rR9s, rR29, rR30, rR14pair, rR14order, rR22w, rR31, rR20m, rR9m, rR32, rR30g, rR22m, rR20k}})
 	add(&PropSpec{ID: "C02", Files: []string{"resp/", "server/db_manager.go", "logger/"},
 		Explanation: "Parser robustness and identity, decided on all paths: every index/slice in the parser is proven in range (R1) and every allocation sized from the wire is bounded (R4), so no byte stream can panic the parser goroutine; the connection is consumed only through complete-read primitives and the parser resets after an error (R11); bulk payloads are unmodified sub-slices cut by count (R9p); a protocol error closes the connection without dispatching anything and only well-formed arrays are dispatched (R12c). Exact decode equality for all chunkings is not decided. The parser closes its result channel only after the end-of-stream report or on a done context (R11c).",
 		Rules:       []RuleRef{rR1, rR4, rR11, rR9p, rR12c, rR11c, rR11m, rR31, rR11t, rR5}})
@@ -66,7 +66,7 @@ func Specs() map[string]*PropSpec {
 		Rules:       []RuleRef{registeredRule("hset", "hsetnx", "hget", "hmget", "hgetall", "hkeys", "hvals", "hlen", "hexists", "hstrlen", "hdel", "hincrby", "hincrbyfloat", "hrandfield"), rR20c, rR19, rR20b, rR9, rR15, rR1, rR7, rR27, rR29, rR21, rR22, rR22d, rR22w, rR9v, rR32, rR9w}})
 	add(&PropSpec{ID: "C11", Files: []string{"memdb/sets.go", "memdb/sets_struct.go", "memdb/db.go"},
 		Explanation: "Set structure decided on all paths of the set code: STORE forms write or delete the destination on every success path (R20d) and never store an object shared with a source key (R26); emptied sets are deleted (R20b); exhaustion/absence is not decided by a sentinel (R20c); SMOVE-style aliasing is safe (R25); client-sized allocations bounded (R4); locks, bounds, replies (R15, R1, R7); commands registered (R0). That results equal the mathematical set algebra is not decided. Option values an executor parses into a local record are read afterwards (R29). Lazy expiry and deadline removal of the shared keyspace helpers (R21, R22). A rejected set command has changed nothing (R27).",
-		Rules:       []RuleRef{registeredRule("sadd", "srem", "sismember", "scard", "smembers", "smove", "spop", "srandmember", "sunion", "sinter", "sdiff", "sunionstore", "sinterstore", "sdiffstore"), rR20d, rR26, rR20b, rR20c, rR25, rR4, rR15, rR1, rR7, rR29, rR21, rR22, rR22d, rR22w, rR27, rR32, rR9w}})
+		Rules:       []RuleRef{registeredRule("sadd", "srem", "sismember", "scard", "smembers", "smove", "spop", "srandmember", "sunion", "sinter", "sdiff", "sunionstore", "sinterstore", "sdiffstore"), rR20d, rR26, rR20b, rR20c, rR25, rR4, rR15, rR1, rR7, rR29, rR21, rR22, rR22d, rR22w, rR27, rR32, rR9w, rR20k}})
 	add(&PropSpec{ID: "C12", Files: []string{"memdb/sorted_set.go", "memdb/sorted_set_struct.go", "memdb/btree.go", "memdb/db.go"},
 		Explanation: "Only the structural fringe of the sorted-set property is decided: key/member identity (R9), nil-after-check (R2), bounds (R1), a reply on every path (R7), lock discipline (R15), rejected commands change nothing (R27), emptied key deleted (R20b), size bookkeeping not double-counted by recursion and a comparator on the raw scores (R20t), commands registered (R0). BST order, AVL balance, size/index agreement, rank and score-mate handling are inductive shape invariants and are NOT decided by this family. Option values an executor parses into a local record are read afterwards (R29). Lazy expiry and deadline removal of the shared keyspace helpers (R21, R22).",
 		Rules:       []RuleRef{registeredRule("zadd", "zrem", "zrange", "zrank"), rR9, rR2, rR1, rR7, rR15, rR27, rR20b, rR20t, rR29, rR20v, rR20z, rR21, rR22, rR22d, rR22w, rR32, rR9w}})
